@@ -414,7 +414,7 @@ where
         let TransportedHandle { id, dropped_tx, .. } = TransportedHandle::<T, Codec>::deserialize(deserializer)?;
 
         let handle_storage = PortDeserializer::storage()?;
-        let state = match handle_storage.remove(id) {
+        let state = match handle_storage.get(id) {
             Some(entry) => State::LocalReceived { entry, id, dropped_tx },
             None => State::Remote { id, dropped_tx },
         };
